@@ -21,8 +21,14 @@ MCJwkClasses == {<<"none", "-">>, <<"sym", "oct">>} \cup {<<"pub", f>> : f \in F
 \* smaller set for the longer configs: one public control, private keys of three families, the symmetric key
 MCJwkClassesSmall == {<<"none", "-">>, <<"sym", "oct">>, <<"pub", "EC-P256">>, <<"priv", "EC-P256">>, <<"priv", "OKP-Ed25519">>, <<"priv", "RSA">>}
 \* what the code refuses today: jwk.Raw() of the header key is assignable to crypto.Signer (measured by the driver, see keystore.py)
-MCRefusedToday == {"EC-P256", "EC-P384", "EC-P521", "RSA", "OKP-Ed25519"}
+MCRefusedToday == AllFamilies   \* since 160898c (was: without OKP-X25519 and oct, findings F24)
 MCRefusedOnlyEcRsa == {"EC-P256", "EC-P384", "EC-P521", "RSA"}
+
+\* what util.PemToPrivateKey (fs / vault backends) can hold; X25519 (PKCS#8) is NOT supported by it: an operation on such a
+\* file has to fail without disclosing anything
+HeldFamilies == {"EC-P256", "EC-P384", "EC-P521", "RSA", "Ed25519"}
+HeldFamiliesSmall == {"EC-P256", "RSA", "Ed25519"}
+EcFamilies == {"EC-P256", "EC-P384", "EC-P521"}
 
 AllDone == ops = MaxOps
 EmitOps == (AllDone /\ Hist) => PrintT(ToJson(hist))
